@@ -156,12 +156,14 @@ class Env:
         self.vars = {}          # C name -> ('scalar', lean, rep) | ('struct', lean, sname) | ('ptr', root, path, sname)
         self.param_roots = {}   # lean root name -> sname, for pointer parameters
         self.written = frozenset()
+        self.undef = frozenset()  # scalar locals declared without a value and not yet definitely assigned
 
     def copy(self):
         e = Env()
         e.vars = dict(self.vars)
         e.param_roots = self.param_roots
         e.written = self.written
+        e.undef = self.undef
         return e
 
 
@@ -257,8 +259,14 @@ class StructTranslator:
             return root, path, ("struct", sn)
         raise Untranslatable("lvalue kind %s" % k)
 
-    def read(self, place, env):
+    def read(self, place, env, dead_ok=False):
         root, path, _ = place
+        if root in env.undef:
+            if dead_ok:
+                # old value of a local without initialiser inside a conditional store: never observable, because the
+                # local stays "undefined" (reads are rejected) until it has been stored to on every path
+                return "0"
+            raise Untranslatable("local %s is read before it is definitely assigned" % root)
         if root in env.param_roots:
             for w in env.written:
                 if w != root and (self.contains(env.param_roots[w], env.param_roots[root]) or
@@ -278,6 +286,9 @@ class StructTranslator:
                     raise Untranslatable("write through pointer parameter %s after a write through %s (may alias)" % (root, w))
             e2 = env.copy()
             e2.written = env.written | {root}
+        if root in env.undef and not path and not getattr(self, "_cond_store", False):
+            e2 = e2.copy()
+            e2.undef = e2.undef - {root}
 
         def upd(prefix, p):
             if not p:
@@ -604,6 +615,13 @@ class StructTranslator:
                     e2.vars[name] = ("ptr", root, path, sn)
                     e[0] = e2
                     continue
+                if not init and r in ("field", "nat"):
+                    # declared without a value: usable once it has been assigned on every path (checked at reads)
+                    e2 = e[0].copy()
+                    e2.vars[name] = ("scalar", name, r)
+                    e2.undef = e2.undef | {name}
+                    e[0] = e2
+                    continue
                 if not init:
                     raise Untranslatable("uninitialised local %s" % name)
                 if isinstance(r, tuple) and r[0] == "struct":
@@ -632,6 +650,10 @@ class StructTranslator:
             c = self.cond(parts[0], e, pre, amb, True)
             then = [parts[1]]
             els = [parts[2]] if s.get("hasElse") else []
+            joined = self.join_if(c, then, els, env, amb, fctx)
+            if joined is not None:
+                # `if (c) p = e;` is the same store as `p = c ? e : p;` — emitted in that form, the continuation once
+                return self.flush(pre + joined[0], self.stmts(rest, joined[1], fctx, depth))
             t = self.stmts(then + rest, env, fctx, depth + 1)
             f = self.stmts(els + rest, env, fctx, depth + 1)
             return self.flush(pre, ("if", c, t, f))
@@ -677,6 +699,136 @@ class StructTranslator:
             self.call(s, e, pre, amb, False, as_stmt=True)
             return self.flush(pre, self.stmts(rest, e[0], fctx, depth))
         raise Untranslatable("statement kind %s" % k)
+
+    # ---- if-statements whose branches only store scalars: conditional stores ----
+    def flat_simple(self, ss):
+        """the statements of a branch if all of them are plain scalar stores (=, op=, ++, --), else None"""
+        out = []
+        for s in ss:
+            k = s.get("kind")
+            if self.is_noop(s):
+                continue
+            if k == "CompoundStmt":
+                sub = self.flat_simple(children(s))
+                if sub is None:
+                    return None
+                out += sub
+            elif (k == "BinaryOperator" and s["opcode"] == "=") or k == "CompoundAssignOperator" or \
+                    (k == "UnaryOperator" and s["opcode"] in ("++", "--")):
+                out.append(s)
+            else:
+                return None
+        return out
+
+    def simple_store(self, s, env, guard, items, amb):
+        """(place, new value) of one plain scalar store; obligations are guarded by the branch condition"""
+        k = s.get("kind")
+        pre = []
+        e = [env]
+        if k == "UnaryOperator":
+            place = self.lvalue(s["inner"][0], env)
+            if place[2] != "nat":
+                return None
+            cur = self.read(place, env)
+            if s["opcode"] == "--":
+                pre.append(("obl", "1 ≤ %s" % cur))
+            val = "(%s %s 1)" % (cur, "+" if s["opcode"] == "++" else "-")
+        else:
+            lhs, rhs = s["inner"]
+            place = self.lvalue(lhs, env)
+            r = place[2]
+            if r not in ("field", "nat"):
+                return None
+            eb = self.expr(rhs, e, pre, amb, True)
+            if k == "CompoundAssignOperator":
+                op = s["opcode"][:-1]
+                if op not in ("+", "-", "*", "/") or self.rep(rhs) != r or (op == "/" and r != "field") or (op == "*" and r == "nat"):
+                    return None
+                cur = self.read(place, env)
+                if op == "/":
+                    pre.append(("obl", "%s ≠ 0" % eb))
+                if op == "-" and r == "nat":
+                    pre.append(("obl", "%s ≤ %s" % (eb, cur)))
+                val = "(%s %s %s)" % (cur, op, eb)
+            else:
+                val = eb
+        for it in pre:
+            if it[0] != "obl":
+                return None
+            items.append(("obl", "%s → %s" % (guard, it[1])))
+        return place, val
+
+    def join_if(self, c, then, els, env, amb, fctx):
+        """items for `if (c) {stores} else {stores}` as conditional stores, or None when the branches do anything else"""
+        ts, es = self.flat_simple(then), self.flat_simple(els)
+        if ts is None or es is None or not (ts or es):
+            return None
+        items = []
+        cname = c
+        todo = [(x, True) for x in ts] + [(x, False) for x in es]
+        try:
+            stores = []
+            cur_env = env
+            # the condition is re-evaluated by every conditional store: bind it first if an earlier store changes what it reads
+            probe = []
+            for st, pos in todo:
+                r = self.simple_store(st, env, "True", [], set())
+                if r is None:
+                    return None
+                probe.append(".".join([r[0][0]] + r[0][1]))
+            if any(t in c for t in probe[:-1]):
+                fctx["ncond"] = fctx.get("ncond", 0) + 1
+                cname = "c_%d" % fctx["ncond"]
+                items.append(("let", cname, "decide %s" % c))
+                cname = "(%s = true)" % cname
+            stored = {True: set(), False: set()}
+            self._cond_store = True
+            nt = len(ts)
+            pairwise = nt == len(es) and probe[:nt] == probe[nt:] and len(set(probe[:nt])) == nt
+            try:
+                if pairwise:
+                    # both branches store to the same places in the same order: one `p = c ? e1 : e2` per place
+                    for st, se in zip(ts, es):
+                        rt = self.simple_store(st, cur_env, cname, items, amb)
+                        re_ = self.simple_store(se, cur_env, "¬ %s" % cname, items, amb)
+                        if rt is None or re_ is None:
+                            return None
+                        place = rt[0]
+                        for v in (rt[1], re_[1]):
+                            if place[0] in cur_env.undef and place[0] in v.replace("(", " ").replace(")", " ").split():
+                                raise Untranslatable("local %s is read before it is definitely assigned" % place[0])
+                        name, upd, cur_env = self.write(place, "(if %s then %s else %s)" % (cname, rt[1], re_[1]), cur_env)
+                        if not place[1]:
+                            stored[True].add(place[0])
+                            stored[False].add(place[0])
+                        items.append(("let", name, upd))
+                    todo = []
+                for st, pos in todo:
+                    guard = cname if pos else "¬ %s" % cname
+                    r = self.simple_store(st, cur_env, guard, items, amb)
+                    if r is None:
+                        return None
+                    place, val = r
+                    if place[0] in cur_env.undef and place[0] in val.replace("(", " ").replace(")", " ").split():
+                        raise Untranslatable("local %s is read before it is definitely assigned" % place[0])
+                    if place[0] in stored[True] | stored[False]:
+                        old = ".".join([place[0]] + place[1])        # already bound by an earlier conditional store
+                    else:
+                        old = self.read(place, cur_env, dead_ok=True)
+                    new = "(if %s then %s else %s)" % ((cname, val, old) if pos else (cname, old, val))
+                    name, upd, cur_env = self.write(place, new, cur_env)
+                    if not place[1]:
+                        stored[pos].add(place[0])
+                    items.append(("let", name, upd))
+            finally:
+                self._cond_store = False
+            both = stored[True] & stored[False] & cur_env.undef
+            if both:
+                cur_env = cur_env.copy()
+                cur_env.undef = cur_env.undef - both
+        except Untranslatable:
+            raise
+        return items, cur_env
 
     def check_zero_init(self, n):
         for c in children(n):
